@@ -10,10 +10,12 @@ git -C /repo worktree remove --force $wt >/dev/null 2>&1
 git -C /repo worktree add --detach $wt HEAD >/dev/null 2>&1 || { echo "$id: cannot create worktree"; exit 2; }
 git -C $wt apply /verif/seeded/$id/patch.diff || { echo "$id: patch does not apply"; git -C /repo worktree remove --force $wt; exit 2; }
 mkdir -p /root/runlogs/seeds
+rm -rf /tmp/sd_coq_$id; cp -a /verif/coq /tmp/sd_coq_$id     # private copy of coq/: runs against different trees can proceed in parallel
 for p in $props; do
-  VERIF_REPO=$wt VERIF_SEED=${VERIF_SEED:-7} ./check $p --tier ${TIER:-quick} > /root/runlogs/seeds/$id.$p.log 2>&1; rc=$?
+  VERIF_REPO=$wt VERIF_COQ_DIR=/tmp/sd_coq_$id VERIF_REPLAY_DIR=/root/runlogs/seeds/replays_$id VERIF_SEED=${VERIF_SEED:-7} ./check $p --tier ${TIER:-quick} > /root/runlogs/seeds/$id.$p.log 2>&1; rc=$?
   nv=$(grep -c '^VIOLATION' /root/runlogs/seeds/$id.$p.log)
   nf=$(grep '^VIOLATION' /root/runlogs/seeds/$id.$p.log | grep -vc 'no-failing-input-found')
   echo "seed=$id check=$p rc=$rc violations=$nv with_replay_input=$nf :: $(grep '^\[' /root/runlogs/seeds/$id.$p.log | head -1)"
 done
 git -C /repo worktree remove --force $wt
+rm -rf /tmp/sd_coq_$id
